@@ -320,7 +320,7 @@ func (r *Run) exec(op wx.Op, o *obs) (pv interface{}) {
 	case OpNewBatch, OpNewBatchQ, OpNewBatchZero:
 		comps := c.Sets[op.A]
 		var b *ecs.Builder
-		if op.D == 0 || op.K == OpNewBatchZero {
+		if op.D == 0 {
 			b = ecs.NewBuilder(w, r.idList(comps)...)
 		} else {
 			b = ecs.NewBuilderWith(w, r.compList(comps, m.creationValues(comps, int(op.D)))...)
@@ -400,6 +400,24 @@ func (r *Run) exec(op wx.Op, o *obs) (pv interface{}) {
 		}
 	case OpRelGet:
 		w.Relations().Get(m.Slots[op.A].H, r.ids[op.B])
+	case OpAssignNone:
+		w.Assign(m.Slots[op.A].H)
+	case OpRelExchangeBad:
+		w.Relations().Exchange(m.Slots[op.A].H, r.idl(op.B), nil, r.ids[op.B], m.handle(op.D))
+	case OpBuilderNoRel:
+		b := ecs.NewBuilder(w, r.idList(c.Sets[op.A])...)
+		t := m.handle(op.D)
+		switch op.B {
+		case 0:
+			b.New(t)
+		case 1:
+			b.NewBatch(1, t)
+		case 2:
+			q := b.NewBatchQ(1, t)
+			q.Close()
+		default:
+			b.Add(m.Slots[op.C].H, t)
+		}
 	case OpReadDead:
 		if op.C == 0 {
 			w.Has(m.Slots[op.A].H, r.ids[op.B])
@@ -1009,6 +1027,12 @@ func (r *Run) deepIter(name string, mk func() ecs.Query, seq []ecs.Entity) *wx.F
 		if !panics(func() { q.EntityAt(i) }) {
 			q.Close()
 			return bad("entityat-range", fmt.Sprintf("EntityAt(%d) did not panic with %d entities", i, n))
+		}
+	}
+	for _, k := range []int{0, -1} {
+		if !panics(func() { q.Step(k) }) {
+			q.Close()
+			return r.fail("C10", "nopanic:Query.Step", fmt.Sprintf("query %s: Step(%d) did not panic", name, k))
 		}
 	}
 	// iterate with Next after Count/EntityAt, checking accessors at every position
